@@ -50,6 +50,9 @@ ANCHORS = [
     ("src/easynetwork/lowlevel/api_async/servers/stream.py", "_RequestReceiver.next"),
     ("src/easynetwork/lowlevel/api_async/servers/stream.py", "_BufferedRequestReceiver.next"),
     ("src/easynetwork/lowlevel/api_async/transports/tls.py", "_IncomingDataReader.readinto"),
+    ("src/easynetwork/lowlevel/api_async/transports/tls.py", "AsyncTLSStreamTransport._retry_ssl_method"),
+    ("src/easynetwork/lowlevel/api_async/transports/tls.py", "AsyncTLSStreamTransport.recv"),
+    ("src/easynetwork/lowlevel/api_async/transports/tls.py", "AsyncTLSStreamTransport.recv_into"),
 ]
 RULE = ("protocol level: every sequence of enabled labels up to length 4 (quick) / 5 (thorough) over {recv(2), "
         "recv_into(2), data(1 byte), data(3 bytes), eof, lost(None), lost(exc), cancel, wake, turn} and up to length 6 / 7 "
@@ -1039,14 +1042,15 @@ def run_scenario(scenario):
 
             def schedule_events():
                 for time, kind, payload in events:
-                    if kind == 0 and layer == 2:
+                    if kind == 0 and layer in (2, 3):
                         cb = (lambda p=payload: deliver_plain(p))
                     else:
                         cb = (lambda p=payload: feeder.push(p)) if kind == 0 else feeder.push_eof
                     loop.call_at(t0 + _t(time), cb)
 
             sent_plain = bytearray()
-            if layer == 2:
+            attempt_task, attempt_k = [None], [0]
+            if layer in (2, 3):
                 import tlskit
                 from easynetwork.lowlevel.api_async.transports.tls import AsyncTLSStreamTransport
                 version = tlskit.TLS13 if consumer == 1 else tlskit.TLS12
@@ -1057,12 +1061,18 @@ def run_scenario(scenario):
                     if reply:
                         loop.call_soon(feeder.push, reply)
                 wire.on_write = on_write
-                tls = await AsyncTLSStreamTransport.wrap(adapter, tlskit.client_ctx(version), server_hostname="localhost",
+                lower = _checkpointing_lower(adapter, backend) if layer == 3 else adapter
+                tls = await AsyncTLSStreamTransport.wrap(lower, tlskit.client_ctx(version), server_hostname="localhost",
                                                          server_side=False, standard_compatible=False)
                 out["handshake_labels"] = len(rec.labels)
 
                 async def receive(timeout):
-                    data = await tls.recv(64)
+                    if consumer == 1 and layer == 3:
+                        buf = bytearray(64)
+                        n = await tls.recv_into(buf)
+                        data = bytes(buf[:n])
+                    else:
+                        data = await tls.recv(64)
                     if not data:
                         raise ConnectionAbortedError(errno.ECONNABORTED, "end of TLS stream")
                     return bytes(data)
@@ -1070,6 +1080,8 @@ def run_scenario(scenario):
                 def deliver_plain(payload):
                     sent_plain.extend(payload)
                     feeder.push(peer.encrypt(payload))
+                    if cancel_kind == 4:
+                        _cancel_after(loop, attempt_task, attempt_k[0])
             else:
                 inner_receive = _receive_fn(layer, consumer, backend, adapter, packets)
 
@@ -1091,6 +1103,18 @@ def run_scenario(scenario):
                         return [1]
                     if cancel_kind == 3:
                         return [0, await receive(_t(budget))]       # the receiver's own timeout parameter
+                    if cancel_kind == 4:
+                        # task.cancel() `budget[0]` loop iterations after every read event, whatever the task is doing
+                        task = loop.create_task(receive(None))
+                        attempt_task[0], attempt_k[0] = task, budget[0]
+                        try:
+                            return [0, await task]
+                        except asyncio.CancelledError:
+                            if not task.cancelled():
+                                raise
+                            return [1]
+                        finally:
+                            attempt_task[0] = None
                     task = loop.create_task(receive(None))
 
                     def cancel_if_receiving():
@@ -1140,7 +1164,7 @@ def run_scenario(scenario):
             out["consumer_task"] = consumer_task = loop.create_task(consume())
             await consumer_task
             with contextlib.suppress(Exception):
-                await (tls.aclose() if layer == 2 else adapter.aclose())
+                await (tls.aclose() if layer in (2, 3) else adapter.aclose())
             out["results"] = results
             out["sent_plain"] = bytes(sent_plain)
             out["packets"] = packets
@@ -1149,7 +1173,7 @@ def run_scenario(scenario):
         rec._turns()
 
     got = [r[1] for r in out["results"] if r[0] == 0]
-    if layer == 2:
+    if layer in (2, 3):
         # plaintext comes out in order; all of it when no ciphertext went missing below and no error was reported
         plain = b"".join(got)
         complete = plain == out["sent_plain"] or rec.returned != rec.delivered or any(r[0] == 3 for r in out["results"])
@@ -1192,6 +1216,51 @@ def _receive_fn(layer, consumer, backend, adapter, packets):
             raise action.exception
         return receive
     raise ValueError(f"layer {layer}")
+
+
+def _cancel_after(loop, task_box, k):
+    """task.cancel() on the attempt in flight, k loop iterations from now"""
+    def step(n):
+        if n > 0:
+            loop.call_soon(step, n - 1)
+        elif task_box[0] is not None and not task_box[0].done():
+            task_box[0].cancel()
+    loop.call_soon(step, k)
+
+
+def _checkpointing_lower(adapter, backend):
+    from easynetwork.lowlevel.api_async.transports.abc import AsyncStreamTransport
+
+    class CheckpointingTransport(AsyncStreamTransport):
+        """pass-through over the socket adapter whose send_all() executes a checkpoint first"""
+
+        async def aclose(self):
+            await adapter.aclose()
+
+        def is_closing(self):
+            return adapter.is_closing()
+
+        async def recv(self, bufsize):
+            return await adapter.recv(bufsize)
+
+        async def recv_into(self, buffer):
+            return await adapter.recv_into(buffer)
+
+        async def send_all(self, data):
+            await backend.coro_yield()
+            await adapter.send_all(data)
+
+        async def send_eof(self):
+            await adapter.send_eof()
+
+        def backend(self):
+            return backend
+
+        @property
+        def extra_attributes(self):
+            return adapter.extra_attributes
+
+    return CheckpointingTransport()
 
 
 class TlsPeer:
@@ -1281,7 +1350,7 @@ _last_results = [None]
 def _scenario_output(scenario):
     labels, obs, delivered, returned, packets_ok, _results = run_scenario(scenario)
     _last_results[0] = _results
-    if scenario[0] == 2:
+    if scenario[0] in (2, 3):
         labels, obs, delivered, returned = canonicalise(labels, obs, delivered, returned)
     return labels, [obs, delivered, returned, packets_ok]
 
@@ -1316,6 +1385,14 @@ def _scenario_cases(thorough, rng):
                 for s2 in subs:
                     events = [[[1, s1], 0, chunks[0]], [[2, s2], 0, chunks[1]]]
                     yield [2, consumer, cancel_kind, 0, ops, events], "grid"
+    # TLS over a lower transport whose send_all() is a checkpoint (as trio's streams, or the adapter under write flow
+    # control): a cancellation k loop iterations after a read event can land inside tls.recv()/recv_into() after the
+    # plaintext left the SSL object
+    for consumer in (0, 1):
+        for k in range(0, 6):
+            for chunks in ([b"hello ", b"world"], [b"AB\nC", b"D\nEF\n"]):
+                events = [[[1, 0], 0, chunks[0]], [[2, 0], 0, chunks[1]], [[3, 0], 1, b""]]
+                yield [3, consumer, 4, 0, [[[0, 0], [k, 0]]] * 3, events], "grid"
     for layer, consumer, cancel_kind in combos:
         for late in (0, 1):
             for chunks in streams:
@@ -1340,8 +1417,9 @@ def _scenario_cases(thorough, rng):
         yield [layer, consumer, cancel_kind, rng.randint(0, 1), ops_r, events], "random"
 
 
-LAYER_NAMES = {0: "endpoint", 1: "server-receiver", 2: "tls"}
-CANCEL_NAMES = {0: "timeout", 1: "move_on_after", 2: "task-cancel", 3: "receiver-timeout-arg"}
+LAYER_NAMES = {0: "endpoint", 1: "server-receiver", 2: "tls", 3: "tls-over-checkpointing-transport"}
+CANCEL_NAMES = {0: "timeout", 1: "move_on_after", 2: "task-cancel", 3: "receiver-timeout-arg",
+                4: "task-cancel-k-iterations-after-read-event"}
 
 
 def _mode2_cases(thorough, rng):
@@ -1349,12 +1427,12 @@ def _mode2_cases(thorough, rng):
         labels, out = _scenario_output(scenario)
         _cache[repr(runner_norm(scenario))] = out
         tags = ["layer", origin, LAYER_NAMES[scenario[0]],
-                ("tls1.3" if scenario[1] else "tls1.2") if scenario[0] == 2 else "buffered" if scenario[1] else "copying",
+                ("tls1.3" if scenario[1] else "tls1.2") if scenario[0] in (2, 3) else "buffered" if scenario[1] else "copying",
                 CANCEL_NAMES[scenario[2]]] + sorted(_window_tags(labels))
         if out[1] != out[2] and not any(o[0] == 2 for o in out[0]):
             tags.append("bytes-lost")
         yield dict(input=[2, 2, labels, scenario], tags=tags, nontrivial=any(lab[0] == L_CANCEL for lab in labels))
-        if scenario[0] != 2 and detect_fixed():
+        if scenario[0] not in (2, 3) and detect_fixed():
             # the composed model Conc/SockEndpoint.v (receive loop + repaired protocol) against the same run
             results = _last_results[0]
             elabels = run_scenario.last_elabels
